@@ -29,3 +29,93 @@ def diagnosersRun (inSub : Bool) (inv : Inv) : Nat :=
   if r == .pr .rep || r == .pr .skip then 0 else inv.diags.length
 
 end OpenHTF.Exec.Spec
+
+namespace OpenHTF.Exec.Spec
+
+/-! ### C02: docs/event_sequence.md read by *mode* (see DESIGN.md Appendix B)
+
+`run`  — normal execution;  `skip` — the enclosing subtest has failed (and we are not in a teardown);
+`td`   — inside the teardown sequence of an entered group: overrides skipping, every node is run. -/
+
+inductive Mode | run | skip | td
+deriving DecidableEq, Repr
+
+/-- the mode that applies to the next node -/
+def eff (m : Mode) (sub : Option Nat) (st : St) : Mode :=
+  match m with
+  | .td => .td
+  | _ => if sub.isSome && st.subFail then .skip else .run
+
+mutual
+/-- "The rest of the phases in a subtest after the failing node": phase descriptors are all skipped
+    (one SKIP record each, nothing evaluated, nothing run), checkpoints are recorded as skipped,
+    branches are not run at all, groups are entirely skipped including their teardown, nested
+    sequences/subtests recursively (a nested subtest is recorded as FAIL). -/
+def skipNode : Node → Option Nat → St → St
+  | .phase p, sub, st => skipPhase p sub st
+  | .checkpoint c, sub, st => { st with checkpoints := st.checkpoints ++ [(c.id, sub, .pr .skip)] }
+  | .seq ns, sub, st => skipList ns sub st
+  | .subtest name ns, _, st =>
+    let st' := skipList ns (some name) st
+    { st' with subtests := st'.subtests ++ [(name, .fail)] }
+  | .branch _ _ _, _, st => st
+  | .group s m t, sub, st => skipList t sub (skipList m sub (skipList s sub st))
+def skipList : List Node → Option Nat → St → St
+  | [], _, st => st
+  | n :: ns, sub, st => skipList ns sub (skipNode n sub st)
+end
+
+/- A phase / checkpoint that is not skipped behaves as C05 describes: `Exec.runPhase`
+   (invocation loop, stop_on_first_failure, "terminal results initiate a short-circuit", FAIL_SUBTEST
+   marks the subtest) and `Exec.evalCheckpoint` (evaluated once, recorded once, acts as a failed
+   phase if triggered). C02 is about the traversal around them. -/
+
+mutual
+def node (cfg : Cfg) : Node → Mode → Option Nat → St → St × Ret
+  | .phase p, m, sub, st =>
+    if eff m sub st = .skip then (skipNode (.phase p) sub st, .cont) else runPhase cfg p sub st
+  | .checkpoint c, m, sub, st =>
+    if eff m sub st = .skip then (skipNode (.checkpoint c) sub st, .cont) else evalCheckpoint c sub st
+  | .seq ns, m, sub, st =>
+    if eff m sub st = .skip then (skipList ns sub st, .cont) else seq cfg ns m sub st
+  | .branch id c ns, m, sub, st =>
+    if eff m sub st = .skip then (st, .cont)                                   -- "not run at all"
+    else if condCheck c st.store then
+      let r := seq cfg ns m sub st
+      ({ r.1 with branches := r.1.branches ++ [(id, true)] }, r.2)
+    else ({ st with branches := st.branches ++ [(id, false)] }, .cont)
+  | .subtest name ns, m, sub, st =>
+    if eff m sub st = .skip then (skipNode (.subtest name ns) sub st, .cont)
+    else
+      -- a fresh subtest record (FAIL from the start only in a teardown of an already failed subtest)
+      let st0 := { st with subFail := sub.isSome && st.subFail }
+      let r := seq cfg ns m (some name) st0
+      let so : SO := if r.2 == .term then .stop else if r.1.subFail then .fail else .pass
+      -- FAIL_SUBTEST never escapes: the outer subtest's state is restored
+      ({ r.1 with subtests := r.1.subtests ++ [(name, so)], subFail := st.subFail }, r.2)
+  | .group s mn t, m, sub, st =>
+    if eff m sub st = .skip then (skipNode (.group s mn t) sub st, .cont)      -- "entirely skipped"
+    else
+      let r1 := seq cfg s m sub st
+      if r1.2 != .cont then r1                                                  -- "we do not run the rest of the PhaseGroup"
+      else if eff m sub r1.1 = .skip then
+        -- failing node in setup: "record skips for the main and teardown sequences"
+        (skipList t sub (skipList mn sub r1.1), .cont)
+      else
+        let r2 := seq cfg mn m sub r1.1
+        let r3 := seq cfg t .td sub r2.1                                        -- "teardown phases are guaranteed to run"
+        (r3.1, r2.2.max r3.2)
+/-- a sequence: in a teardown every node runs whatever the earlier ones returned; otherwise the
+    first terminal node stops the sequence -/
+def seq (cfg : Cfg) : List Node → Mode → Option Nat → St → St × Ret
+  | [], _, _, st => (st, .cont)
+  | n :: ns, m, sub, st =>
+    let r1 := node cfg n m sub st
+    if m = .td then
+      let r2 := seq cfg ns m sub r1.1
+      (r2.1, r1.2.max r2.2)
+    else if r1.2 != .cont then r1
+    else seq cfg ns m sub r1.1
+end
+
+end OpenHTF.Exec.Spec
